@@ -1160,6 +1160,10 @@ async fn output(
                     } else if let Some(o) = output_wires.get(out.0 as usize).copied().flatten() {
                         output_wires[out] = Some(o ^ r);
                     };
+                } else {
+                    // a party that omits its share of an output mask must not be treated as
+                    // if it had sent an (unauthenticated) share of 0
+                    return Err(MpcError::MissingOutputShareForOutReg(out).into());
                 }
             }
         }
